@@ -63,7 +63,7 @@ ORunCall == /\ Ev("runcall") /\ runCalled' = runCalled \cup {T.r}
 OutcomeOK(r, o) ==
     LET k == EndingOf(r)
         started == r \in began \/ k # "none"
-    IN IF o.panic = "already" THEN r \notin began /\ Cardinality(runCalled) > 1
+    IN IF o.panic \in {"already", "refused"} THEN r \notin began /\ Cardinality(runCalled) > 1
        ELSE IF o.panic = "sentinel" THEN TRUE          \* the harness itself killed a runaway run
        ELSE IF o.panic # "none" THEN FALSE             \* Run must not crash on a well-formed context
        ELSE IF ~started THEN TRUE                      \* returned without running
@@ -76,7 +76,7 @@ OutcomeOK(r, o) ==
 
 ORunRet == /\ Ev("runret") /\ runRet' = runRet \cup {T.r}
            /\ outcomeOK' = (outcomeOK /\ OutcomeOK(T.r, T))
-           /\ closedOK' = (closedOK /\ ((T.r \in began /\ T.panic # "already") => AllClosedOnce))
+           /\ closedOK' = (closedOK /\ (T.r \in began => AllClosedOnce))
            /\ UNCHANGED <<caseLine, cfg, created, closes, runCalled, began, stopCalled, stopRet, ending, closeErr,
                           blocked, beginsAfter, bound, lateCommit, endOK>>
 
